@@ -178,7 +178,7 @@ class ExprMixin:
                 return self.call_method(s, obj, "size", [], {}, prop=True)
             if name in ("_bucket_type", "_set_type", "_mapping_type",
                         "max_leaf_size", "max_internal_size", "__class__",
-                        "VALUE_SAME_CHECK"):
+                        "VALUE_SAME_CHECK", "_key_type", "_value_type"):
                 return [(s, self.class_attr(s, obj, name))]
             return [(s, SV("bmeth", None, (obj, name)))]
         if obj.kind in ("list", "tuple", "cls", "func"):
@@ -198,6 +198,10 @@ class ExprMixin:
             return mk_int(z3.Int("C_" + name))
         if name == "VALUE_SAME_CHECK":
             return mk_bool(z3.Bool("C_VALUE_SAME_CHECK"))
+        if name == "_key_type":
+            return SV("cls", None, "list:K")
+        if name == "_value_type":
+            return SV("cls", None, "list:V")
         if name == "_set_type":
             return SV("cls", None, "Set")
         if name == "_mapping_type":
